@@ -67,7 +67,8 @@ Footprint(n) ==
     [] n = "EXEC.LOOP" -> FP({"exec", "index"}, {"exec", "index"})
     [] n = "INDEX.CURRENT" -> FP({"index"}, {"int"})
     [] n = "INDEX.DEFINE"  -> FP({"int"}, {"int", "index"})
-    [] n \in {"INDEX.DESTINATION", "INDEX.INCREASE", "INDEX.POP", "INDEX.FLUSH"} -> FP({"index"}, {"index"})
+    [] n = "INDEX.DESTINATION" -> FP({"index"}, {"index", "int"})       \* (result on INDEX as implemented, on INTEGER as documented)
+    [] n \in {"INDEX.INCREASE", "INDEX.POP", "INDEX.FLUSH"} -> FP({"index"}, {"index"})
     [] n \in {"BOOLVECTOR.AND", "BOOLVECTOR.OR", "BOOLVECTOR.NOT"} -> FP({"bvec", "int"}, {"bvec", "int"})
     [] n \in {"INTVECTOR.+", "INTVECTOR.-"} -> FP({"ivec", "int"}, {"ivec", "int"})
     [] n \in {"FLOATVECTOR.+", "FLOATVECTOR.-", "FLOATVECTOR.*", "FLOATVECTOR./"} -> FP({"fvec", "int"}, {"fvec", "int"})
